@@ -47,8 +47,7 @@ Proof. intros H. apply N.mod_pow2_bits_low. lia. Qed.
 Lemma c_set_bits_is_store little buf off v : c_dom buf -> length v <= 64 -> off + length v <= length buf ->
   c_set_bits little buf off v = Some (firstn off buf ++ v ++ skipn (off + length v) buf).
 Proof.
-  intros Hd H64 Hfit. apply (c_store_value little buf off (N_of_bits v) v Hd H64 Hfit).
-  intros i Hi. rewrite testbit_mod64_low by lia. apply testbit_N_of_bits.
+  intros [Hm HL] H64 Hfit. exact (c_set_law little (length buf) Hm HL buf off v eq_refl H64 Hfit).
 Qed.
 
 (* ---- signed fields: nunavutSetIxx(buf, size, off, z, w) = the walker's store of the w-bit two's complement image of z ---- *)
